@@ -253,6 +253,14 @@ func (fx *fnExec) execCallWith(st *state, in ssa.Instruction, cc *ssa.CallCommon
 			// a helper that provably writes nothing its caller can see needs no havoc (and so cannot
 			// disturb the caller's frame clause); anything else is treated like an unknown external
 			pure := fx.g.staticPure(info.fn, map[*ssa.Function]bool{})
+			if !pure {
+				// nothing is known about what this helper does to the caller's state: what fails in the
+				// caller from here on is undecided (reported, replayed), not a violation by itself
+				if fx.taintedBy == "" {
+					fx.warnings = append(fx.warnings, fmt.Sprintf("%s: calls %s, a function of this module with side effects, a loop and no contract; clauses of the caller that fail are undecided", fx.rootFn().String(), info.fn.String()))
+				}
+				fx.taintedBy = info.fn.String()
+			}
 			ct = &Contract{Key: info.key, Trusted: true, Opaque: true, Allocates: !pure, Loops: map[int]*LoopSpec{}, HavocArgs: !pure}
 			fx.assumptionsUsed["function of this module without a contract, called as opaque and swept for crash-freedom only: "+info.fn.String()] = true
 		} else {
